@@ -306,6 +306,8 @@ struct Model
     std::vector<int> vol_offset;  // global volume id offset per universe
     LD tol_rel = 1.5e-8L, tol_abs = 1.5e-8L;
     bool unsupported = false;  // contains a surface the oracle cannot model
+    bool duplicate_surfaces = false;  // a unit holds two identical surfaces
+                                      // (not a valid ORANGE input)
     int max_depth = 0;
 };
 
@@ -363,6 +365,15 @@ inline Model build_model(celeritas::OrangeInput const& in)
                             return make_quadric(s);
                     },
                     vs);
+                for (auto const& o : U.unit.surfs)
+                {
+                    bool same = !unsup && o.k == q.k;
+                    for (int i = 0; i < 3 && same; ++i)
+                        same = o.a[i] == q.a[i] && o.b[i] == q.b[i]
+                               && o.c[i] == q.c[i];
+                    if (same)
+                        m.duplicate_surfaces = true;
+                }
                 U.unit.surfs.push_back(q);
                 U.unit.unsupported.push_back(unsup);
                 if (unsup)
@@ -684,20 +695,33 @@ struct Segment
     LD t0 = 0, t1 = 0;  // [t0, t1): t1 = INFINITY if unbounded
     Path path;
     LD base_t = 0;  // ray parameter at which path's frames were evaluated
-    bool fuzzy_end = false;  // the crossing at t1 lies in a cluster of
-                             // candidates closer than 2*delta, or the state
-                             // just behind it is ambiguous
+    bool fuzzy_end = false;  // the crossing at t1 lies in a cluster of several
+                             // candidates closer than 2*delta to each other
     LD end_lo = 0, end_hi = 0;  // extent of the candidate cluster at t1
+};
+
+// A group of candidate crossing distances closer than 2*delta to each other
+struct Cluster
+{
+    LD lo, hi;
+    int n;  // number of candidates
+    bool changed;  // the volume path differs across the cluster
 };
 
 // March along the ray p + t d from an unambiguous start.  The path can only
 // change where the ray crosses a surface (or grid plane) of a universe on the
-// current path, so candidates are taken from those universes only.
+// current path, so candidates are taken from those universes only.  The path
+// behind a cluster is located a distance ~delta beyond it with a much smaller
+// ambiguity threshold (the arithmetic is exact to ~1e-19; delta is the slack
+// granted to the *navigator*, not needed by the oracle); candidates of newly
+// entered universes that lie within that distance are merged into the
+// cluster.
 inline std::vector<Segment> trace(Model const& m,
                                   V3 const& p,
                                   V3 const& d,
                                   int max_segments,
-                                  bool* truncated)
+                                  bool* truncated,
+                                  std::vector<Cluster>* clusters = nullptr)
 {
     std::vector<Segment> segs;
     *truncated = false;
@@ -706,6 +730,7 @@ inline std::vector<Segment> trace(Model const& m,
     s.base_t = 0;
     s.path = locate(m, p, delta_at(m, p), d);
     LD tmin = 0;  // candidates must lie beyond this parameter
+    int guard = 0;
     while (true)
     {
         if (s.path.outside() || s.path.nowhere)
@@ -714,7 +739,7 @@ inline std::vector<Segment> trace(Model const& m,
             segs.push_back(s);
             return segs;
         }
-        if (int(segs.size()) >= max_segments)
+        if (int(segs.size()) >= max_segments || ++guard > 4000)
         {
             *truncated = true;
             s.t1 = INFINITY;
@@ -732,17 +757,47 @@ inline std::vector<Segment> trace(Model const& m,
             while (j + 1 < cand.size() && cand[j + 1] - cand[j] <= 2 * dl)
                 ++j;
             LD lo = cand[i], hi = cand[j];
-            LD probe;
-            if (j + 1 < cand.size())
-                probe = (hi + cand[j + 1]) / 2;
-            else
-                probe = hi + std::max(16 * dl, 1e-3L * (1 + fabsl(hi)));
-            V3 xp = along(p, d, probe);
-            Path np = locate(m, xp, delta_at(m, xp), d);
-            if (!np.same_as(s.path))
+            int ncl = int(j - i + 1);
+            Path np;
+            LD probe = 0;
+            // locate just beyond the cluster, absorbing candidates of newly
+            // entered universes that lie within the probe distance
+            for (int it = 0; it < 8; ++it)
+            {
+                probe = hi + dl;
+                if (j + 1 < cand.size() && probe >= cand[j + 1] - dl / 2)
+                    probe = (hi + cand[j + 1]) / 2;
+                V3 xp = along(p, d, probe);
+                np = locate(m, xp, dl * 1e-4L, d);
+                if (np.same_as(s.path))
+                    break;
+                std::vector<LD> nc;
+                candidates(m, np, probe, hi, nc);
+                bool grew = false;
+                for (LD t : nc)
+                    if (t > hi && t <= probe + dl)
+                    {
+                        hi = std::max(hi, t);
+                        ++ncl;
+                        grew = true;
+                    }
+                if (!grew)
+                    break;
+                // absorb old candidates now covered
+                while (j + 1 < cand.size() && cand[j + 1] <= hi + 2 * dl)
+                {
+                    ++j;
+                    hi = std::max(hi, cand[j]);
+                    ++ncl;
+                }
+            }
+            bool chg = !np.same_as(s.path);
+            if (clusters)
+                clusters->push_back({lo, hi, ncl, chg});
+            if (chg)
             {
                 s.t1 = (lo + hi) / 2;
-                s.fuzzy_end = (j > i) || np.ambiguous;
+                s.fuzzy_end = ncl > 1;
                 s.end_lo = lo;
                 s.end_hi = hi;
                 segs.push_back(s);
